@@ -164,6 +164,16 @@ func (ipcp *IPCPStateMachine) setState(newState IPCPState) {
 	oldState := ipcp.state
 	ipcp.state = newState
 
+	// The restart timer only runs while negotiating or terminating (RFC 1661
+	// section 4.6: Req-Sent, Ack-Rcvd, Ack-Sent, Closing, Stopping); it is
+	// stopped on entering any other state and otherwise left alone, so that a
+	// peer that falls silent after a reply cannot leave the automaton waiting
+	// forever
+	switch newState {
+	case IPCPStateInitial, IPCPStateStarting, IPCPStateClosed, IPCPStateStopped, IPCPStateOpened:
+		ipcp.stopTimer()
+	}
+
 	ipcp.logger.Debug("IPCP state change",
 		zap.String("from", oldState.String()),
 		zap.String("to", newState.String()),
@@ -478,8 +488,6 @@ func (ipcp *IPCPStateMachine) receiveConfigureAck(pkt *LCPPacket) error {
 		return nil
 	}
 
-	ipcp.stopTimer()
-
 	switch ipcp.state {
 	case IPCPStateClosed, IPCPStateStopped:
 		ipcp.sendTerminateAck(pkt.Identifier)
@@ -505,8 +513,6 @@ func (ipcp *IPCPStateMachine) receiveConfigureNak(pkt *LCPPacket) error {
 	if pkt.Identifier != ipcp.lastIdentifier {
 		return nil
 	}
-
-	ipcp.stopTimer()
 
 	// Process NAK options
 	opts, err := ParseLCPOptions(pkt.Data)
@@ -547,8 +553,6 @@ func (ipcp *IPCPStateMachine) receiveConfigureReject(pkt *LCPPacket) error {
 		return nil
 	}
 
-	ipcp.stopTimer()
-
 	// Process rejected options - stop sending them
 	opts, _ := ParseLCPOptions(pkt.Data)
 	for _, opt := range opts {
@@ -576,7 +580,6 @@ func (ipcp *IPCPStateMachine) receiveConfigureReject(pkt *LCPPacket) error {
 
 // receiveTerminateRequest handles incoming Terminate-Request
 func (ipcp *IPCPStateMachine) receiveTerminateRequest(pkt *LCPPacket) error {
-	ipcp.stopTimer()
 
 	switch ipcp.state {
 	case IPCPStateClosed, IPCPStateStopped, IPCPStateClosing, IPCPStateStopping:
@@ -586,6 +589,7 @@ func (ipcp *IPCPStateMachine) receiveTerminateRequest(pkt *LCPPacket) error {
 		ipcp.setState(IPCPStateStopped)
 	case IPCPStateOpened:
 		ipcp.zeroRestartCount()
+		ipcp.startTimer()
 		ipcp.sendTerminateAck(pkt.Identifier)
 		ipcp.setState(IPCPStateStopping)
 	}
@@ -595,7 +599,6 @@ func (ipcp *IPCPStateMachine) receiveTerminateRequest(pkt *LCPPacket) error {
 
 // receiveTerminateAck handles incoming Terminate-Ack
 func (ipcp *IPCPStateMachine) receiveTerminateAck(pkt *LCPPacket) error {
-	ipcp.stopTimer()
 
 	switch ipcp.state {
 	case IPCPStateClosing:
